@@ -179,6 +179,8 @@ def harnesses(ctx) -> List[H]:
         ("minute", "minute: int", ["0 <= minute <= 59"], "ts(minute=minute)", "quick"),
         ("second", "second: int", ["0 <= second <= 60"] + ex_leap, "ts(hour=23, minute=59, second=second)", "quick"),
         ("fraction", "n: int, d: int", ["1 <= n <= 9", "0 <= d <= 9"], "ts(frac='.' + str(concretize_int(d, 0, 9)) * concretize_int(n, 1, 9))", "quick"),
+        ("fraction_with_offset", "n: int, d: int, sign: bool", ["1 <= n <= 12", "0 <= d <= 9"], "ts(frac='.' + str(concretize_int(d, 0, 9)) * concretize_int(n, 1, 12), off=('+05:30' if sign else '-07:00'))", "quick"),
+        ("fraction_long_z", "n: int", ["10 <= n <= 20"], "ts(frac='.' + '123456789' * 3, off='Z')[:20 + concretize_int(n, 10, 20)] + 'Z'", "thorough"),
         ("offset_hours", "sign: bool, hh: int", ["0 <= hh <= 23"], "ts(off=('+' if sign else '-') + '%02d:00' % concretize_int(hh, 0, 23))", "quick"),
         ("offset_minutes", "sign: bool, mm: int", ["0 <= mm <= 59"], "ts(off=('+' if sign else '-') + '05:%02d' % concretize_int(mm, 0, 59))", "quick"),
         ("case", "lt: bool, lz: bool", [], "ts(t=('t' if lt else 'T'), off=('z' if lz else 'Z'))", "quick"),
